@@ -320,6 +320,114 @@ func runC16(p *eng.Prog, r *eng.Report, tier string) {
 		}
 		c.r.Floor("C16.5", "whole-chunk returns in unescapeMapping.Span", n, 1)
 	}
+	// ---- C16.6 "need more input" is never the answer at the end of the input ------------------
+	// ErrShortSrc with atEOF set makes x/text report an error (or silently drop
+	// the unconsumed tail): every return of ErrShortSrc lies on paths where
+	// atEOF is known to be false. The facts are combined by unit resolution:
+	// `or(!A | !atEOF)` together with `A` gives `!atEOF`.
+	notEOF := func(f *eng.Fn, pt eng.Point, eof string) (bool, string) {
+		// historical dominance (no kills): "this test was taken on this path";
+		// the tests compare idx with offsets that are advanced afterwards
+		var facts []string
+		seenAtom := map[string]bool{}
+		for _, ce := range f.Graph().CondEdges() {
+			for _, a := range ce.Atoms {
+				if seenAtom[a.S] {
+					continue
+				}
+				seenAtom[a.S] = true
+				if f.Graph().DominatedFrom(f.Graph().Entry(), pt, []string{a.S}) {
+					facts = append(facts, a.S)
+				}
+			}
+		}
+		have := map[string]bool{}
+		for _, fa := range facts {
+			have[fa] = true
+		}
+		if have["!"+eof] {
+			return true, ""
+		}
+		for _, fa := range facts {
+			for _, clause := range append([]string{fa}, func() []string {
+				// conjuncts of an and(...) fact are facts too
+				if strings.HasPrefix(fa, "and(") {
+					return splitTop(fa[4:len(fa)-1], " & ")
+				}
+				return nil
+			}()...) {
+				clause = strings.TrimSpace(clause)
+				if !strings.HasPrefix(clause, "or(") {
+					continue
+				}
+				var rest []string
+				for _, d := range splitTop(clause[3:len(clause)-1], " | ") {
+					d = strings.TrimSpace(d)
+					if have[eng.Negate(d)] {
+						continue // this alternative is excluded by another fact
+					}
+					rest = append(rest, d)
+				}
+				if len(rest) == 1 && rest[0] == "!"+eof {
+					return true, ""
+				}
+			}
+		}
+		// `end < len(src)` where end starts as len(src) and is only ever
+		// decremented under !atEOF: the comparison can only hold after such a
+		// decrement
+		for _, fa := range facts {
+			if !strings.HasPrefix(fa, "lt(local:") || !strings.Contains(fa, ",builtin.len(") {
+				continue
+			}
+			name := fa[len("lt(local:"):]
+			if i := strings.Index(name, "<"); i > 0 {
+				name = name[:i]
+			}
+			g := f.Graph()
+			for _, d := range g.AllDefs() {
+				if d.Var.Name() != name {
+					continue
+				}
+				okAll := true
+				nDec := 0
+				for _, d2 := range g.DefsOf(d.Var) {
+					if d2.Kind == eng.DefPlain && d2.RHS != nil && strings.HasPrefix(f.Norm(d2.RHS, nil), "builtin.len(") {
+						continue
+					}
+					nDec++
+					if !g.DominatedFrom(g.Entry(), d2.At, []string{"!" + eof}) {
+						okAll = false
+					}
+				}
+				if okAll && nDec > 0 {
+					return true, ""
+				}
+				break
+			}
+		}
+		return false, "dominating facts: " + strings.Join(facts, " ; ")
+	}
+	for _, k := range []struct {
+		f   *eng.Fn
+		eof string
+	}{{ut, "p2"}, {us, "p1"}} {
+		if k.f == nil {
+			continue
+		}
+		g := k.f.Graph()
+		n := 0
+		for _, rs := range g.Returns {
+			if len(rs.Results) == 0 || !strings.HasSuffix(k.f.Norm(rs.Results[len(rs.Results)-1], nil), "transform.ErrShortSrc") {
+				continue
+			}
+			n++
+			pt, _ := g.Where(rs)
+			okn, why := notEOF(k.f, pt, k.eof)
+			c.r.Check("C16.6", k.f, "ErrShortSrc only before the end of the input", "G: a return of ErrShortSrc is dominated by !atEOF (by unit resolution over the dominating facts)", rs.Pos(), okn, why)
+		}
+		c.r.Floor("C16.6", "ErrShortSrc returns in "+k.f.Short, n, 2)
+	}
 	// ---- C16.4 same tables --------------------------------------------------------------------
 	for _, f := range []*eng.Fn{us, ut} {
 		if f == nil {
